@@ -153,7 +153,7 @@ func (e *c08Env) checkInline(cs c08Case) {
 func c08Grammar(full bool) []string {
 	var out []string
 	remotes := []string{"any", "10.1.2.3", "10.1.2.3/32", "10.1.2.3/31", "10.1.2.0/24", "10.0.0.0/8", "128.0.0.0/1", "0.0.0.0/0"}
-	ports := []string{"", " 80", " 80-80", " 1000-1003", " 65535", " 0-65535", " 1", " 65530-65535", " 0-5"}
+	ports := []string{"", " 80", " 80-80", " 1000-1003", " 65535", " 0-65535", " 1", " 65530-65535", " 0-5", " 256", " 512-520"}
 	protos := []string{"ip", "tcp", "udp", "6", "17", "1", "127", "128", "132", "254", "0", "255"}
 	for _, act := range []string{"permit", "deny"} {
 		for _, dir := range []string{"out", "in"} {
@@ -423,7 +423,7 @@ func TestVerifC08(t *testing.T) {
 	vQuietLoggers()
 	res := vNewResult()
 	defer res.write(t)
-	res.Rule = "grammar expanded completely over action {permit,deny} x direction {in,out} x protocol {ip,tcp,udp,6,17,1,127,128,132,254,0,255} x remote {any, host, /32, /31, /24, /8, /1, /0} x port {absent, p, p-p, lo-hi, 65535, 0-65535, 1, 65530-65535, 0-5} x both " +
+	res.Rule = "grammar expanded completely over action {permit,deny} x direction {in,out} x protocol {ip,tcp,udp,6,17,1,127,128,132,254,0,255} x remote {any, host, /32, /31, /24, /8, /1, /0} x port {absent, p, p-p, lo-hi, 65535, 0-65535, 1, 65530-65535, 0-5, 256, 512-520} x both " +
 		"endpoint orders (+ UE-side ports / no assigned side: crash-freedom only), each string inline in a Create PDR for both PDR directions and UE address present/absent; every token-level corruption (delete, duplicate, " +
 		"truncate after, replace by 12 junk tokens) of a stratified subset of descriptions (thorough: of all); every sequence of <= 3 PFD Management requests over {T1, T2, T3, T4 (UE-side ports), empty, three rejected forms} followed by PDRs naming " +
 		"app1/app2/app3 in both directions for two UE addresses in turn; every 'from <remote> [ports] to assigned' string of the grammar also through the UP4 plug-in (applications / terminations entries compared by C04's image check). distinct_nontrivial = strict grammar cases + PFD cases compared at the fake BESS"
